@@ -324,7 +324,7 @@ func (r *Report) ArgIs(id string, fn *ssa.Function, callee Callee, idx int, pat 
 		return
 	}
 	key := id + " @ " + r.P.FuncName(fn)
-	calls := CallsDeep(fn, callee)
+	calls := r.P.CallsNear(fn, callee)
 	r.Sites += len(calls)
 	if min == 0 {
 		min = 1
@@ -335,10 +335,140 @@ func (r *Report) ArgIs(id string, fn *ssa.Function, callee Callee, idx int, pat 
 	}
 	for _, c := range calls {
 		a := CallArg(c.Common(), idx)
-		if a == nil || !pat.M(a) {
-			r.Bad(key, rule, r.P.Pos(c.Pos()), "argument is "+AccessPath(a, 0))
+		undo := r.P.BindHelperParams(fn, c)
+		ok := a != nil && pat.M(a)
+		desc := AccessPath(a, 0)
+		undo()
+		if !ok {
+			r.Bad(key, rule, r.P.Pos(c.Pos()), "argument is "+desc)
 			return
 		}
 	}
 	r.OK(key, rule, r.P.Pos(fn.Pos()), fmt.Sprintf("%d call site(s)", len(calls)), true)
+}
+
+// ArgIsEverywhere: like ArgIs, over every production call site of callee in the module.
+func (r *Report) ArgIsEverywhere(id string, callee Callee, idx int, pat VPat, min int) {
+	rule := fmt.Sprintf("ARG: argument %d of every call of %s (anywhere in the module) is %s", idx, callee.Desc, pat.Desc)
+	n := 0
+	for _, s := range r.P.CallSites(callee, false) {
+		if r.P.FileClass(r.P.FuncPos(s.Fn)) != "prod" {
+			continue
+		}
+		n++
+		ci, ok := s.Instr.(ssa.CallInstruction)
+		if !ok {
+			continue
+		}
+		a := CallArg(ci.Common(), idx)
+		if a == nil || !pat.M(a) {
+			r.Bad(id+" @ "+r.P.FuncName(s.Fn), rule, r.P.Pos(s.Pos), "argument is "+AccessPath(a, 0))
+			return
+		}
+	}
+	r.Sites += n
+	if n < min {
+		r.Lost(id, rule, fmt.Sprintf("%d call site(s), expected >= %d", n, min))
+		return
+	}
+	r.OK(id, rule, "", fmt.Sprintf("%d call site(s)", n), true)
+}
+
+// CallsNear: the calls of callee in fn and its closures; when there are none, the calls in the module functions fn calls
+// statically (two levels): an ARG rule keeps its anchor when the code that contains the call is extracted into a helper.
+func (p *Prog) CallsNear(fn *ssa.Function, callee Callee) []ssa.CallInstruction {
+	if fn == nil {
+		return nil
+	}
+	if cs := CallsDeep(fn, callee); len(cs) > 0 {
+		return cs
+	}
+	seen := map[*ssa.Function]bool{fn: true}
+	level := []*ssa.Function{fn}
+	for depth := 0; depth < 2; depth++ {
+		var next []*ssa.Function
+		var found []ssa.CallInstruction
+		for _, f := range level {
+			for _, g := range WithAnons(f) {
+				for _, b := range g.Blocks {
+					for _, in := range b.Instrs {
+						ci, ok := in.(ssa.CallInstruction)
+						if !ok {
+							continue
+						}
+						h := ci.Common().StaticCallee()
+						if h == nil || seen[h] || len(h.Blocks) == 0 || !p.InModule(h) || h.Parent() != nil {
+							continue
+						}
+						// only helpers of the same package: a rule about fn's own logic
+						if h.Pkg == nil || fn.Pkg == nil || h.Pkg != fn.Pkg {
+							continue
+						}
+						seen[h] = true
+						next = append(next, h)
+						found = append(found, CallsDeep(h, callee)...)
+					}
+				}
+			}
+		}
+		if len(found) > 0 {
+			return found
+		}
+		level = next
+	}
+	return nil
+}
+
+// BindHelperParams: when call instruction ci sits in a helper h that caller calls exactly once (directly), make h's
+// parameters stand for the arguments of that call (for value patterns and access paths); returns the undo function.
+func (p *Prog) BindHelperParams(caller *ssa.Function, ci ssa.CallInstruction) func() {
+	h := Outer(ci.Parent())
+	if caller == nil || h == Outer(caller) {
+		return func() {}
+	}
+	var site *ssa.Call
+	n := 0
+	for _, f := range WithAnons(caller) {
+		for _, b := range f.Blocks {
+			for _, in := range b.Instrs {
+				if c, ok := in.(*ssa.Call); ok && c.Common().StaticCallee() == h {
+					site = c
+					n++
+				}
+			}
+		}
+	}
+	if n != 1 || len(h.Params) != len(site.Common().Args) {
+		return func() {}
+	}
+	var bound []*ssa.Parameter
+	for i, prm := range h.Params {
+		if _, dup := paramSubst[prm]; !dup {
+			paramSubst[prm] = site.Common().Args[i]
+			bound = append(bound, prm)
+		}
+	}
+	return func() {
+		for _, prm := range bound {
+			delete(paramSubst, prm)
+		}
+	}
+}
+
+// BindParams makes h's parameters stand for the arguments of call (a call of h); returns the undo function.
+func BindParams(h *ssa.Function, call *ssa.Call) func() {
+	var bound []*ssa.Parameter
+	if len(h.Params) == len(call.Common().Args) {
+		for i, prm := range h.Params {
+			if _, dup := paramSubst[prm]; !dup {
+				paramSubst[prm] = call.Common().Args[i]
+				bound = append(bound, prm)
+			}
+		}
+	}
+	return func() {
+		for _, prm := range bound {
+			delete(paramSubst, prm)
+		}
+	}
 }
